@@ -36,7 +36,8 @@ META = {
                   "output TLC derived from AldorSem.tla. File-scope and link names of every compiled unit are aligned with the untruncated "
                   "output and judged for distinctness by TLC (TraceCNames.tla); spelling is compared with CNames!MangleH as drift only. "
                   "Name pairs that satisfy the derived collision condition under the real hash are found by TLC (CNamesSearch.tla) and "
-                  "replayed.",
+                  "replayed, also as programs of two units; fixed multi-unit / foreign-export scenarios cover the name-keyed identifiers "
+                  "(unit initialisers, static closures) and the part files of split units.",
     "level_note": "Trusted: AldorSem.tla, the renderer, gcc, the shipped headers. Collisions inside a function body or a struct are left to "
                   "gcc (they are compile errors). Limits other than the default are also exercised against libraries regenerated with the "
                   "same limit (the shipped archives only fit the default limit: recorded finding). -Cno-idhash and limits below the default "
@@ -97,7 +98,7 @@ def choose_quick(product, rnd, n=16):
 def build_libs(build, opts, strict=True):
     """libaxllib.a and the generated part of the run time (runtime.c) regenerated from the shipped .ao files with `opts`.
     Returns dict(axllib, rt, failures=[(unit, phase, text)], files=n)."""
-    key = "c16lib-" + hashlib.sha1((" ".join(opts) + "|v2").encode()).hexdigest()[:12]
+    key = "c16lib-" + hashlib.sha1((" ".join(opts) + "|v3").encode()).hexdigest()[:12]
     d = os.path.join(build["dir"], key)
     info_path = os.path.join(d, "info.json")
     if os.path.exists(info_path):
@@ -118,6 +119,7 @@ def build_libs(build, opts, strict=True):
             failures.append((unit, "aldor", (out + err).decode(errors="replace")[-600:]))
             return []
         objs = []
+        bad = False
         for c in cs:
             o = os.path.join(tmp, sub, "%s__%s.o" % (unit, os.path.basename(c)[:-2]))
             cmd = ["gcc", "-w", "-O0", "-I" + vlib.SRC, "-I" + ud] + (GCC_STRICT if strict else []) + \
@@ -125,8 +127,15 @@ def build_libs(build, opts, strict=True):
             rc, out, err, to = vlib.run(cmd, cwd=ud, timeout=600)
             if rc != 0 or to:
                 failures.append((unit, "gcc " + os.path.basename(c), (out + err).decode(errors="replace")[-600:]))
+                bad = True
             else:
                 objs.append(o)
+        if bad and sub == "axl":
+            # the failure is reported by the caller; so that programs can still be linked against the other units generated
+            # under these options, this unit is taken from the shipped archive (same names: only the limit changes names)
+            o = os.path.join(tmp, sub, unit + ".o")
+            rc, out, err, to = vlib.run(["ar", "x", os.path.join(AXL_DIR, "libaxllib.a"), unit + ".o"], cwd=os.path.join(tmp, sub), timeout=60)
+            return [o] if rc == 0 and os.path.exists(o) else objs
         return objs
     with concurrent.futures.ThreadPoolExecutor(max_workers=vlib.NCPU) as ex:
         futs = [ex.submit(gen, u, os.path.join(AXL_DIR, "al", u + ".ao"), "axl") for u in units]
@@ -352,9 +361,16 @@ def run(chk, tier):
     f_names = pool.submit(vlib.tlc, "CNames", "CNames" if quick else "CNamesDeep", workers=8 if quick else vlib.NCPU, timeout=1200)
     f_dist = pool.submit(vlib.tlc, "CNames", "CNamesDistinct", workers=4, timeout=600)
     f_distnk = pool.submit(vlib.tlc, "CNames", "CNamesDistinctNK", workers=4, timeout=600)
+    f_short = None if quick else pool.submit(vlib.tlc, "CNames", "CNamesShort", workers=4, timeout=600)
     f_libs = {i: pool.submit(build_libs, b, ("-Cidlen=%d" % i,)) for i in IDLENS if i != 30}
     product, overrides, default_cfg, nmodel_cfgs = configurations(chk)
     chosen = choose_quick(product, rnd, 16) if quick else list(product)
+    if f_short is not None:
+        # below the statement's range (limits under the default): with a limit of 3 or 4 even the kind strings are cut
+        # (tmp / tmpClos); TLC shows it, recorded as information only
+        rs = f_short.result()
+        chk.add_tlc("CNamesShort", rs)
+        chk.extra["model_limits_below_7"] = "indexed entities collide (%s violated), outside C16" % rs.violated if rs.violated else "no collision found"
     r = f_names.result()
     chk.add_tlc("CNames", r)
     if r.violated:
@@ -588,6 +604,10 @@ def run(chk, tier):
                     # the names of imported library globals are spelled differently than under the limit the shipped
                     # libraries were generated with: they cannot be resolved at run time
                     key = {"kind": kind, "cause": "library-global-names-depend-on-idlen", "route": route, "idlen": c["idlen"]}
+            if route == "samelimit" and c["idlen"] != 30 and re.search(r"there is no exception handler installed|no aldorRuntimeException function defined", res["out"] + res["err"]):
+                # foam_c.c looks the Aldor-level handlers up under names that are written out cut at the default limit
+                # (G_LKR1B_aldorUnhandledExceptio): a library generated with another limit exports them under another name
+                key = {"kind": kind, "cause": "c-runtime-hardcodes-handler-names-cut-at-default-limit", "route": route, "idlen": c["idlen"]}
             pending.append((p, c, route, label, kind, sig, key, res, exp, names))
         # names: align with the untruncated output of the same program under the same other options
         if scan:
@@ -744,7 +764,7 @@ def replay(d):
     b = vlib.vbuild()
     wd = vlib.scratch("c16r")
     label = det["cfg"]
-    opts = [o for o in label.split(" [")[0].split() if o.startswith("-C")]
+    opts = [o for o in label.split(" [")[0].split() if o.startswith("-C") or o == "-Zdb"]
     route = label.split("[")[-1].rstrip("]") if "[" in label else "shipped"
     open(os.path.join(wd, "p.as"), "w").write(det["source"])
     kw = {}
@@ -788,7 +808,7 @@ corrupted record: VERIF_C16_CORRUPT=1 rewrites one field of one recorded Names e
   becomes that of another) before TLC reads the trace -> TraceCNames exports the CONFLICT, exit 1
   ("two distinct entities get the C name C0_p (extern scope) ...").
 
-unchanged tree: held (exit 0, seven KNOWN-FINDING lines) with VERIF_SEED = default, 11 and 977.
+unchanged tree: held (exit 0, KNOWN-FINDING lines only) with VERIF_SEED = default, 11 and 977.
 
 candidate patches tried with VERIF_SRC=/tmp/wt-c16fix: hooks/fix-C16-link-names-independent-of-idlen.diff makes all shipped-route
   runs conform (0 of 66 bad; the finding `library-global-names-depend-on-idlen` disappears); hooks/fix-C16-split-part-file-names.diff
